@@ -55,6 +55,11 @@ func (c *Conversation) initAKE() {
 }
 
 func (c *Conversation) calcAKEKeys(s *big.Int) {
+	// keys of an earlier attempt of this exchange are erased, not just dropped
+	c.ake.revealKey.unlock()
+	c.ake.revealKey.wipe()
+	c.ake.sigKey.unlock()
+	c.ake.sigKey.wipe()
 	c.ake.ssid, c.ake.revealKey, c.ake.sigKey = calculateAKEKeys(s, c.version)
 	if c.msgState != encrypted {
 		c.ssid = c.ake.ssid
